@@ -25,6 +25,7 @@ def handle (op : String) (args impl : List String) : Option Out :=
   | "ab_nd", [o, a, b] =>
     some (match parseListOf parseNat a, parseListOf parseNat b with
       | some x, some y =>
+        if o == "asg" then cmp "ab_nd.asg" ["ok", fmtList (x.map toString), fmtList (y.map toString)] impl else
         (match eval o x y with
         | some r => cmp s!"ab_nd.{o}.{resTag r}" (render r) impl
         | none => .malformed "ab_nd op")
